@@ -286,13 +286,25 @@ Print Assumptions C13_p256_codec_ok.
 (* the constants regenerated from the field sources on this run (gen/CodecConsts.v: 2-adicity,
    progenitor exponent, root of unity, modulus, element size) are the ones of the model's curves *)
 Theorem C13_regenerated_constants_tie :
-  k256_fp_modulus = wp_p k256_params /\ p256_fp_modulus = wp_p p256_params /\
-  pallas_fp_modulus = wp_p pallas_params /\ vesta_fp_modulus = wp_p vesta_params /\
-  bls12381_fp_modulus = bls12381_p /\ ed25519_fp_modulus = ep_p ed25519_params /\
-  k256_fp_bytes = 32%nat /\ p256_fp_bytes = 32%nat /\ pallas_fp_bytes = 32%nat /\
-  vesta_fp_bytes = 32%nat /\ bls12381_fp_bytes = 48%nat /\ ed25519_fp_bytes = 32%nat.
+  wcodec_tie k256_codec k256_fp_modulus k256_fp_e k256_fp_progenitor k256_fp_rou k256_fp_bytes /\
+  wcodec_tie p256_codec p256_fp_modulus p256_fp_e p256_fp_progenitor p256_fp_rou p256_fp_bytes /\
+  wcodec_tie pallas_codec pallas_fp_modulus pallas_fp_e pallas_fp_progenitor pallas_fp_rou pallas_fp_bytes /\
+  wcodec_tie vesta_codec vesta_fp_modulus vesta_fp_e vesta_fp_progenitor vesta_fp_rou vesta_fp_bytes /\
+  wcodec_tie blsg1_codec bls12381_fp_modulus bls12381_fp_e bls12381_fp_progenitor bls12381_fp_rou bls12381_fp_bytes /\
+  (ec_p ed25519_codec = ed25519_fp_modulus /\ ec_e ed25519_codec = ed25519_fp_e /\
+   ec_g ed25519_codec = ed25519_fp_progenitor /\ ec_rou ed25519_codec = ed25519_fp_rou /\
+   ec_len ed25519_codec = ed25519_fp_bytes).
 Proof. exact codec_consts_tie. Qed.
 Print Assumptions C13_regenerated_constants_tie.
+
+(* the instances evaluated by the extracted driver are the ones of the theorems *)
+Theorem C13_extracted_instances_tie :
+  k256_codec_f tt = k256_codec /\ p256_codec_f tt = p256_codec /\
+  pallas_codec_f tt = pallas_codec /\ vesta_codec_f tt = vesta_codec /\
+  blsg1_codec_f tt = blsg1_codec /\ ed25519_codec_f tt = ed25519_codec /\
+  curve25519_params_f tt = curve25519_params.
+Proof. exact codec_thunks_tie. Qed.
+Print Assumptions C13_extracted_instances_tie.
 
 (* P-256 (finding F2): full statement
      forall P, w_on_curve p256_params P = true -> w_canon p256_codec P ->
